@@ -296,6 +296,16 @@ func (n *c3Net) RoundTrip(req *http.Request) (*http.Response, error) {
 				if arg == "0" && !n.has[dig] {
 					return c3Resp(req, 200, nil, nil), nil // no Content-Length header at all
 				}
+				switch arg { // other ways of saying "no usable length"
+				case "0absent":
+					return c3Resp(req, 200, nil, nil), nil
+				case "0neg":
+					arg = "-5"
+				case "0nan":
+					arg = "12abc"
+				case "0empty":
+					arg = ""
+				}
 				return c3Resp(req, 200, map[string]string{"Content-Length": arg}, nil), nil
 			})
 		}
